@@ -22,9 +22,10 @@ Inductive event :=
 
 Record gstate := mkG {
   nodes : list (nid * node);
-  chan : list (nid * nid * list msg)
+  chan : list (nid * nid * list msg);
+  disks : list (nid * disk)          (* files of the nodes that are currently down *)
 }.
-#[export] Instance eta_G : Settable _ := settable! mkG <nodes; chan>.
+#[export] Instance eta_G : Settable _ := settable! mkG <nodes; chan; disks>.
 
 Definition chan_get (a b : nid) (g : gstate) : list msg :=
   match find (fun c => (fst (fst c) =? a) && (snd (fst c) =? b)) (chan g) with
@@ -37,10 +38,10 @@ Definition chan_set (a b : nid) (q : list msg) (g : gstate) : gstate :=
 
 Definition cb_of (cb : N) : cbref := if cb =? 0 then CbNone else CbLocal cb.
 
-Definition DEFAULT_BUDGET := 200.
+Definition DEFAULT_BUDGET := 30.
 
 Definition mk_env (c : conf) (now rnd : Z) (bud : N) (ord : list nid) (sl : N) : env :=
-  mkEnv c now (now + period c + 1)%Z bud rnd ord sl.
+  mkEnv c now bud rnd ord sl.
 
 (* route the outputs of node `a`: sends are appended to the channels, a transport
    dropNode x discards what x had in flight towards a *)
@@ -58,7 +59,7 @@ Definition put_node (n : nid) (nd' : node) (g : gstate) : gstate :=
 Definition finish (n : nid) (s : S) (g : gstate) : gstate :=
   route n (outs s) (put_node n (nd s) g).
 
-Definition idle_S (n : node) : S := mkS n [] 0 0%Z 0 false.
+Definition idle_S (n : node) : S := mkS n [] 0 0%Z 0 false 0.
 
 (* result of a step: new global state, the node that ran (if any), its handler state *)
 Definition gstep (c : conf) (g : gstate) (ev : event) : option (gstate * option (nid * S)) :=
@@ -119,14 +120,25 @@ Definition gstep (c : conf) (g : gstate) (ev : event) : option (gstate * option 
     | Some x => let s := idle_S (api_compact x) in Some (finish n s g, Some (n, s))
     end
   | EKill n =>
+    let g := match aget n (nodes g) with
+             | Some x => match disk_of c x with
+                         | Some d => g <| disks := aset n d (disks g) |>
+                         | None => g <| disks := adel n (disks g) |>
+                         end
+             | None => g
+             end in
     Some (g <| nodes := adel n (nodes g) |>
             <| chan := filter (fun c => negb ((fst (fst c) =? n) || (snd (fst c) =? n))) (chan g) |>, None)
   | ERestart n oth now rnd sv =>
-    (* memory-only node: a fresh object *)
+    (* a fresh object; a journaled node finds its files *)
     let e := mk_env c now rnd DEFAULT_BUDGET [] 0 in
-    let x := init_node e (if RO_BASE <=? n then None else Some n) oth sv in
+    let me := if RO_BASE <=? n then None else Some n in
+    let x := match aget n (disks g), me with
+             | Some d, Some _ => init_from_disk e me oth sv d
+             | _, _ => init_node e me oth sv
+             end in
     let g := g <| chan := filter (fun c => negb ((fst (fst c) =? n) || (snd (fst c) =? n))) (chan g) |> in
     Some (put_node n x g, Some (n, idle_S x))
   end.
 
-Definition ginit : gstate := mkG [] [].
+Definition ginit : gstate := mkG [] [] [].
